@@ -535,6 +535,11 @@ func (f *frame) applySpec(sp *spec.FuncSpec, callee *ssa.Function, sig *types.Si
 				return nil, fmt.Errorf("%s:%d: %v", c.File, c.Line, err)
 			}
 			vc.assume(g, t)
+			for _, pr := range c.Props {
+				if pr == "ASSUMED" {
+					vc.addAssumed("unproved clause of " + label + ": " + c.Src)
+				}
+			}
 		}
 	}
 	return results, nil
